@@ -31,19 +31,19 @@ MODULES = {
     'C16': ['contracts.c16', 'contracts.c15'],
     'C13': ['contracts.c13'],
     'C10': ['contracts.c10'],
-    'C11': ['contracts.c11', 'contracts.pit_graph'],
-    'C08': ['contracts.pit_layers', 'contracts.pit_graph'],
-    'C01': ['contracts.pit_layers', 'contracts.pit_graph'],
+    'C11': ['contracts.c11', 'contracts.pit_graph', 'contracts.whole_pit'],
+    'C08': ['contracts.pit_layers', 'contracts.pit_graph', 'contracts.whole_pit'],
+    'C01': ['contracts.pit_layers', 'contracts.pit_graph', 'contracts.whole_pit'],
     'C04': ['contracts.pit_layers', 'contracts.wrappers', 'contracts.c15', 'contracts.pit_graph'],
     'C12': ['contracts.pit_layers', 'contracts.wrappers', 'contracts.c16', 'contracts.c13', 'contracts.c10'],
     'C05': ['contracts.mps_layers', 'contracts.wrappers', 'contracts.pit_graph'],
     'C02': ['contracts.mps_layers'],
     'C06': ['contracts.wrappers', 'contracts.pit_graph'],
-    'C18': ['contracts.wrappers', 'contracts.pit_layers', 'contracts.mps_layers'],
-    'C09': ['contracts.c09', 'contracts.pit_layers', 'contracts.pit_graph'],
+    'C18': ['contracts.wrappers', 'contracts.pit_layers', 'contracts.mps_layers', 'contracts.whole_pit'],
+    'C09': ['contracts.c09', 'contracts.pit_layers', 'contracts.pit_graph', 'contracts.whole_pit'],
     'C14': ['contracts.c14'],
     'C20': ['contracts.c20'],
-    'C07': ['contracts.c07', 'contracts.wrappers'],
+    'C07': ['contracts.c07', 'contracts.wrappers', 'contracts.whole_pit'],
 }
 
 EXTRACTION_DROPS = ['docstrings', 'type annotations', 'typing.cast (identity)', 'with torch.no_grad() (body kept)',
